@@ -173,10 +173,16 @@ def minify(
         preserve_locals = []
     elif isinstance(preserve_locals, str):
         preserve_locals = [preserve_locals]
+    else:
+        # Don't modify the caller's list
+        preserve_locals = list(preserve_locals)
     if preserve_globals is None:
         preserve_globals = []
     elif isinstance(preserve_globals, str):
         preserve_globals = [preserve_globals]
+    else:
+        # Don't modify the caller's list
+        preserve_globals = list(preserve_globals)
 
     preserve_locals.extend(module.preserved)
     preserve_globals.extend(module.preserved)
